@@ -118,6 +118,11 @@ class Box:
     def __repr__(self):
         return 'Box(*%r, **%r)' % (self.args, self.kwargs)
 
+    @classmethod
+    def make(cls, *args, **kwargs):
+        """a Python classmethod constructor"""
+        return cls(*args, **kwargs)
+
 
 class AltBox(Box):
     """Printed through pretty_call_alt(ctx, AltBox, args=..., kwargs=list of pairs)."""
@@ -175,14 +180,22 @@ class CallSpec:
         self.mode = mode      # 'call' | 'alt-list' | 'alt-odict' | 'alt-dict'
 
 
+import math as _math
+import datetime as _datetime
+import collections as _collections
 CALLABLES = {
     'sorted': sorted, 'dict': dict, 'len': len, 'free_function': free_function, 'Box': Box, 'Inner': Outer.Inner,
     'str:custom_name': 'custom_name', 'str:pkg.mod.fn': 'pkg.mod.fn',
+    # C functions of a module other than builtins, classmethods (built-in and Python), classes of the standard library
+    'math.sqrt': _math.sqrt, 'dict.fromkeys': dict.fromkeys, 'datetime.fromtimestamp': _datetime.datetime.fromtimestamp,
+    'OrderedDict.fromkeys': _collections.OrderedDict.fromkeys, 'Box.make': Box.make, 'deque': _collections.deque, 'date': _datetime.date,
 }
 CALLABLE_NAMES = {
     'sorted': 'sorted', 'dict': 'dict', 'len': 'len', 'free_function': 'ppv.vtypes.free_function',
     'Box': 'ppv.vtypes.Box', 'Inner': 'ppv.vtypes.Outer.Inner', 'str:custom_name': 'custom_name',
     'str:pkg.mod.fn': 'pkg.mod.fn',
+    'math.sqrt': 'math.sqrt', 'dict.fromkeys': 'dict.fromkeys', 'datetime.fromtimestamp': 'datetime.datetime.fromtimestamp',
+    'OrderedDict.fromkeys': 'collections.OrderedDict.fromkeys', 'Box.make': 'ppv.vtypes.Box.make', 'deque': 'collections.deque', 'date': 'datetime.date',
 }
 
 
@@ -195,4 +208,10 @@ def _pretty_callspec(value, ctx):
         return pretty_call_alt(ctx, value.fn, args=value.args, kwargs=list(value.kwargs))
     if value.mode == 'alt-odict':
         return pretty_call_alt(ctx, value.fn, args=value.args, kwargs=collections.OrderedDict(value.kwargs))
+    if value.mode == 'alt-iter':
+        # a one-shot iterable of pairs (what zip / a generator expression gives)
+        return pretty_call_alt(ctx, value.fn, args=value.args, kwargs=iter(list(value.kwargs)))
+    if value.mode == 'alt-zip':
+        return pretty_call_alt(ctx, value.fn, args=value.args,
+                               kwargs=zip([k for k, _ in value.kwargs], [v for _, v in value.kwargs]))
     return pretty_call_alt(ctx, value.fn, args=value.args, kwargs=dict(value.kwargs))
